@@ -1,6 +1,7 @@
 (* C03 -- property theorems (statements only; proofs by [exact] of lemmas in Proofs*.v). *)
 From Coq Require Import ZArith List Permutation Ring_theory.
-From OMV Require Import Base.Val C03.Model C03.ProofsGreedy C03.ProofsExpand C03.ProofsBidir C03.ProofsTotals.
+From OMV Require Import Base.Val C03.Model C03.ProofsGreedy C03.ProofsExpand C03.ProofsBidir C03.ProofsTotals
+  C03.ProofsOrder.
 Import ListNotations.
 Open Scope nat_scope.
 
@@ -126,3 +127,57 @@ Theorem C03_totals_present_refuted :
     jget 0%Z (totals_present M sc nrows ncols fg fnz rg rnz subs) r c <> (sc r c * M r c)%Z.
 Proof. exact totals_present_refuted. Qed.
 Print Assumptions C03_totals_present_refuted.
+
+(* The incidence-degree ordering of _order_by_ID (argmax of the running degrees, first index on
+   ties) visits every non-empty column exactly once and nothing else, for EVERY pattern: the
+   per-case check [order_ok] of the theorems above is always satisfied by the order the code uses. *)
+Theorem C03_order_by_ID_enumerates : forall (P : pattern) (ncols : nat),
+  let ord := order_by_ID ncols (nbrs P ncols) in
+  NoDup ord /\ (forall c, In c ord -> c < ncols) /\
+  (forall c, In c ord <-> c < ncols /\ exists r, pat P r c = true).
+Proof. exact order_by_ID_enumerates. Qed.
+Print Assumptions C03_order_by_ID_enumerates.
+
+(* Hence, unconditionally: what _compute_coloring(mode='fwd') returns is a proper colouring in which
+   exactly the non-empty columns have exactly one colour, with at most ncols colours ... *)
+Theorem C03_fwd_groups_proper : forall (P : pattern) (ncols : nat),
+  let groups := fwd_groups P ncols in
+  NoDup (concat groups) /\
+  (forall c, In c (concat groups) <-> c < ncols /\ exists r, pat P r c = true) /\
+  (forall c k1 k2, In c (nth k1 groups []) -> In c (nth k2 groups []) -> k1 = k2) /\
+  Forall (fun g => g <> []) groups /\ length groups <= ncols /\
+  proper_groups P groups.
+Proof. exact fwd_groups_proper. Qed.
+Print Assumptions C03_fwd_groups_proper.
+
+(* ... with which every matrix of the pattern is reconstructed exactly (fwd and rev), for every
+   pattern and every matrix, with no per-case hypothesis ... *)
+Theorem C03_fwd_groups_reconstruct : forall (V : Type) (vzero : V) (vadd : V -> V -> V),
+  (forall x, vadd vzero x = x) -> (forall x, vadd x vzero = x) ->
+  forall (P : pattern) (ncols : nat) (M : nat -> nat -> V),
+    (forall r c, pat P r c = false -> M r c = vzero) ->
+    forall r c, c < ncols ->
+      expand_fwd V vzero P (fwd_groups P ncols)
+                 (compress_fwd V vzero vadd M ncols (fwd_groups P ncols)) r c = M r c.
+Proof. exact fwd_groups_reconstruct. Qed.
+Print Assumptions C03_fwd_groups_reconstruct.
+
+Theorem C03_rev_groups_reconstruct : forall (V : Type) (vzero : V) (vadd : V -> V -> V),
+  (forall x, vadd vzero x = x) -> (forall x, vadd x vzero = x) ->
+  forall (P : pattern) (ncols : nat) (M : nat -> nat -> V),
+    (forall r c, pat P r c = false -> M r c = vzero) ->
+    forall r c, r < length P -> c < ncols ->
+      expand_rev V vzero P (rev_groups P ncols)
+                 (compress_rev V vzero vadd M (length P) (rev_groups P ncols)) r c = M r c.
+Proof. exact rev_groups_reconstruct. Qed.
+Print Assumptions C03_rev_groups_reconstruct.
+
+(* ... and never more solves than the uncoloured computation, for every pattern. *)
+Theorem C03_solves_le_uncolored_uncond : forall (P : pattern) (ncols bidir : nat),
+  let nf := length (fwd_groups P ncols) in
+  let nr := length (rev_groups P ncols) in
+  nf <= ncols /\ nr <= length P /\
+  snd (auto_select bidir nf nr) <= Nat.min (length P) ncols /\
+  snd (auto_select bidir nf nr) <= bidir.
+Proof. exact solves_le_uncolored_uncond. Qed.
+Print Assumptions C03_solves_le_uncolored_uncond.
